@@ -564,8 +564,17 @@ class BayesianNetwork(DAG):
             n_prev_samples = data.shape[0]
 
         # Step 1: Compute the pseudo_counts for the dirichlet prior.
+        #         The estimator lays out its count tables with the parents in sorted order,
+        #         so the CPD columns have to be brought into that order first.
+        def _values_with_sorted_parents(cpd):
+            evidence = list(cpd.variables[1:])
+            if evidence == sorted(evidence):
+                return cpd.get_values()
+            return cpd.reorder_parents(sorted(evidence), inplace=False)
+
         pseudo_counts = {
-            var: compat_fns.to_numpy(self.get_cpds(var).get_values()) * n_prev_samples
+            var: compat_fns.to_numpy(_values_with_sorted_parents(self.get_cpds(var)))
+            * n_prev_samples
             for var in data.columns
         }
 
